@@ -78,7 +78,16 @@ def apply(obj, ev: dict):
         return obj.ttm([bind.lay(np.array(m, dtype=f)) for m in a["mats"]], transpose=bool(a["transp"]), **dimkw())
     if op in ("mttkrp", "mttkrps"):
         U = [bind.lay(np.array(m, dtype=(fk if a["asK"] else f))) for m in a["U"]]
-        if a["asK"]:
+        hair = 1.0
+        if a["asK"] and op == "mttkrp" and fk not in (np.int64, np.int32) and (a["n"] + len(a["w"])) % 2 == 0:
+            # another parameterisation of the same Kruskal operand times g = 1 + 2^-20: every weight is g (a hair away from
+            # one - not "no weights") and the weights proper sit in the columns of a factor other than the one left out.
+            # mttkrp is linear in the operand, g is taken out of the result again (all values are integers times g: exact)
+            hair = 1.0 + 2.0 ** -20
+            k = (a["n"] + 1) % len(U)
+            U[k] = bind.lay(np.array(np.asarray(U[k], dtype=float) * np.array(a["w"], dtype=float)[None, :]))
+            U = ttb.ktensor(U, np.full(len(a["w"]), hair))
+        elif a["asK"]:
             U = ttb.ktensor(U, np.array(a["w"], dtype=fk))
         if isinstance(obj, (ttb.tensor, ttb.sptensor)) and not a["asK"] and f in (np.int64, np.int32):
             # the products are linear in the tensor: integer-typed factor matrices against a tensor holding halves
@@ -88,6 +97,8 @@ def apply(obj, ev: dict):
             if op == "mttkrp":
                 return np.asarray(half.mttkrp(U, a["n"])) * 2.0
             return [np.asarray(m) * 2.0 for m in half.mttkrps(U)]
+        if hair != 1.0:
+            return np.asarray(obj.mttkrp(U, a["n"])) / hair
         return obj.mttkrp(U, a["n"]) if op == "mttkrp" else obj.mttkrps(U)
     if op == "ttt":
         other = bind.gamma(a["other"])
